@@ -22,6 +22,7 @@ type oracleInfo struct {
 	dropped  int // calls dropped for exceeding the step bound
 	excluded map[int]string
 	soak     int // calls made in the one long-lived soak process
+	siteBits []uint8
 	viol     *proto.Record
 }
 
@@ -365,6 +366,7 @@ func buildOracle(b builds, cfg tierCfg) oracleInfo {
 		}
 	}
 	oi.iso = len(iso)
+	oi.siteBits = inst.SiteBits
 	steps := make([]int64, n)
 	for i, id := range inst.IDs {
 		if i < len(inst.Steps) {
